@@ -112,6 +112,11 @@ def load_known(prop_id):
         return [e for e in json.load(f)["findings"] if e["property"] == prop_id]
 
 
+def entry_tags(e):
+    """failure tags excluded by a known finding: "tag" or a list "tags" (one root cause, several symptoms)"""
+    return ([e["tag"]] if e.get("tag") else []) + list(e.get("tags") or [])
+
+
 def split_known(fails, known_tags, stats):
     """Remove failures whose tag is a recorded known finding (counted)."""
     rest = []
@@ -206,7 +211,7 @@ def main(prop_id, tier, replay=None, only=None):
     build.ensure()
     mod = importlib.import_module(modname)
     known = load_known(prop_id)
-    known_tags = set(e["tag"] for e in known if e.get("status") == "known")
+    known_tags = set(t for e in known if e.get("status") == "known" for t in entry_tags(e))
     # development aid (collecting distinct failures on a broken tree): never set by the registered commands
     known_tags |= set(t for t in os.environ.get("VERIF_DEV_EXCLUDE_TAGS", "").split(",") if t)
 
@@ -330,12 +335,12 @@ def main(prop_id, tier, replay=None, only=None):
             if e.get("regress") and not only:
                 try:
                     fl = replay_file(mod, os.path.join(VERIF, e["regress"]), set())
-                    still = any(f.split(":", 1)[0] == e["tag"] for f in fl)
+                    still = any(f.split(":", 1)[0] in entry_tags(e) for f in fl)
                 except Exception:
                     still = True
             print("%s: property=%s %s [%s; %d matching cases excluded in this run]"
-                  % ("KNOWN-FINDING" if still else "KNOWN-FINDING-GONE", prop_id, e["what"], e["tag"],
-                     total.excluded.get(e["tag"], 0)))
+                  % ("KNOWN-FINDING" if still else "KNOWN-FINDING-GONE", prop_id, e["what"], ",".join(entry_tags(e))[:120],
+                     sum(total.excluded.get(t, 0) for t in entry_tags(e))))
     print("%s %s seed=%d: %d cases, %d distinct non-trivial, %.1fs" %
           (prop_id, tier, seed, total.evals, len(total.digests) + total.distinct_extra, wall))
     for k, v in sorted(total.worst.items()):
